@@ -147,6 +147,50 @@ theorem body_parse_config_dict :
      "parallel = _parse_parallel(raw.get('parallel'))",
      "return BLDFMConfig(domain=domain, towers=towers, met=met, solver=solver, output=output, parallel=parallel)"] := rfl
 
+theorem body_cfg_parse_tower :
+    (cfg_parse_tower : List String) =
+    ["def _parse_tower(d: dict)",
+     "return TowerConfig(name=d['name'], lat=d['lat'], lon=d['lon'], z_m=d['z_m'])"] := rfl
+
+theorem body_cfg_parse_domain :
+    (cfg_parse_domain : List String) =
+    ["def _parse_domain(d: dict)",
+     "modes = d.get('modes', [512, 512])",
+     "output_levels = d.get('output_levels')",
+     "return DomainConfig(nx=d['nx'], ny=d['ny'], xmax=float(d['xmax']), ymax=float(d['ymax']), nz=d['nz'], modes=tuple(modes), halo=d.get('halo'), ref_lat=d.get('ref_lat'), ref_lon=d.get('ref_lon'), output_levels=output_levels, full_output=d.get('full_output', False))"] := rfl
+
+theorem body_cfg_parse_met :
+    (cfg_parse_met : List String) =
+    ["def _parse_met(d: dict)",
+     "return MetConfig(ustar=d.get('ustar'), mol=d.get('mol', 1000000000.0), wind_speed=d.get('wind_speed', 5.0), wind_dir=d.get('wind_dir', 270.0), z0=d.get('z0'), timestamps=d.get('timestamps'))"] := rfl
+
+theorem body_cfg_parse_solver :
+    (cfg_parse_solver : List String) =
+    ["def _parse_solver(d: dict)",
+     "if d is None:",
+     "  return SolverConfig()",
+     "src_loc = d.get('src_loc')",
+     "if src_loc is not None:",
+     "  src_loc = tuple(src_loc)",
+     "return SolverConfig(closure=d.get('closure', 'MOST'), precision=d.get('precision', 'single'), footprint=d.get('footprint', False), surface_flux_shape=d.get('surface_flux_shape', 'diamond'), analytic=d.get('analytic', False), src_loc=src_loc)"] := rfl
+
+theorem body_cfg_parse_parallel :
+    (cfg_parse_parallel : List String) =
+    ["def _parse_parallel(d: dict)",
+     "if d is None:",
+     "  return ParallelConfig()",
+     "return ParallelConfig(num_threads=d.get('num_threads', 1), max_workers=d.get('max_workers', 1), use_cache=d.get('use_cache', False))"] := rfl
+
+theorem body_cfg_load_config :
+    (cfg_load_config : List String) =
+    ["def load_config(path: Union[str, Path])",
+     "path = Path(path)",
+     "if not path.exists():",
+     "  raise FileNotFoundError(f'Config file not found: {path}')",
+     "with open(path) as f:",
+     "  raw = yaml.safe_load(f)",
+     "return parse_config_dict(raw)"] := rfl
+
 theorem body_cli_cmd_run :
     (cli_cmd_run : List String) =
     ["def cmd_run(args)",
